@@ -883,8 +883,8 @@ def main(chk: C.Check, build: C.Build) -> None:
     fam_counts: dict[str, Any] = {}
     #        names, depth, fraction in thorough, fraction in quick
     plan = [(1, 2, 1.0, 0.25), (1, 3, 1.0, 0.25), (1, 4, 1.0, 0.1), (2, 2, 1.0, 0.1),
-            (2, 3, 1.0, 0.014), (3, 2, 0.2, 0.014),
-            (2, 4, 0.003, 0.0003), (3, 3, 0.0005, 0.00005), (3, 4, 0.0000025, 0.00000025)]
+            (2, 3, 1.0, 0.014), (3, 2, 0.12, 0.014),
+            (2, 4, 0.0023, 0.0003), (3, 3, 0.00038, 0.00005), (3, 4, 0.0000019, 0.00000025)]
     for k, d, f_th, f_q in plan:
         shapes = fam_shapes(k)
         total = len(shapes) ** d
@@ -931,7 +931,7 @@ def main(chk: C.Check, build: C.Build) -> None:
         if r.random() < 0.03 and len(tpls) > 1:
             cases.append((tpls, ("wrap", [(r.random() < 0.5, entry[1])]), limit, c[3] if len(c) > 3 else True))
             fam_wrapped += 1
-    nrand = 500 if not thorough else 8000
+    nrand = 500 if not thorough else 6000
     for _ in range(nrand):
         cases.append(rand_case(r, thorough) + (r.random() < 0.75,))
     # configuration axes: markup characters in literal text / in render data with auto-escape on / off;
